@@ -623,6 +623,24 @@ Ltac loc_tac L Hlt HT :=
   | rewrite HT; reflexivity | reflexivity | intros; discriminate
   | | | | | | ].
 
+Ltac boolp :=
+  repeat match goal with
+  | H : (_ <=? _) = true |- _ => apply Z.leb_le in H
+  | H : (_ <=? _) = false |- _ => apply Z.leb_gt in H
+  | H : (_ <? _) = true |- _ => apply Z.ltb_lt in H
+  | H : (_ <? _) = false |- _ => apply Z.ltb_ge in H
+  | H : (_ =? _) = true |- _ => apply Z.eqb_eq in H
+  | H : (_ =? _) = false |- _ => apply Z.eqb_neq in H
+  end.
+
+Ltac num HT :=
+  intros; unfold gstep, counter; rewrite ?HT; cbn -[Z.add Z.sub Z.max Z.opp]; rewrite ?upd_same;
+  repeat match goal with H : slot_mpmc _ _ = _ |- _ => rewrite !H end; cbn -[Z.add Z.sub Z.max Z.opp];
+  repeat match goal with |- context [if ?b then _ else _] => destruct b eqn:?; cbn -[Z.add Z.sub Z.max Z.opp] end;
+  boolp; try lia.
+
+Ltac runsh := split; cbn; rewrite ?upd_same; auto.
+
 Lemma linv_step x t : LInv x -> status_of (base x) t = SReady -> LInv (istep x t).
 Proof.
   intros L E. pose proof L as [S C].
@@ -630,11 +648,112 @@ Proof.
   apply Nat.ltb_lt in Hlt.
   pose proof (s_shape _ S t) as H. remember (stk (base x) t) as T eqn:HT. symmetry in HT.
   destruct (s_slots _ S t) as (SL1 & SL2 & SL3 & SL4).
-  destruct H.
+  destruct H as [ | p k R2 | p k [R1 R2] | p k [R1 R2] | p k [P1 P2] | p k [P1 P2] | p k [P1 P2] | p k [P1 P2]
+                | p k [P1 P2] | p k R2 B F | p k R2 B F | p k R2 | p k [R1 R2] | p k [R1 R2] | p k [R1 R2]
+                | p k v [R1 R2] Hv | p k b [R1 R2] | p k f [R1 R2] | p k [R1 R2] | p k v [R1 R2] Hv
+                | p k [R1 R2] | p k [R1 R2] ].
   - (* done *) cbn in E. discriminate.
   - (* Start *)
-    destruct p as [|[| |] p].
-    + erewrite istep_form; [|rewrite HT; cbn; reflexivity].
-      loc_tac L Hlt HT.
-      Show.
-Abort.
+    destruct p as [|[| |] p];
+      (erewrite istep_form; [|rewrite HT; cbn; reflexivity]);
+      loc_tac L Hlt HT; try (num HT; fail); try (constructor; runsh).
+  - (* wait: fetch_sub *)
+    destruct (0 <=? word (mem (base x)) 0 - 1) eqn:Hc.
+    + destruct p as [|[| |] p];
+        (erewrite istep_form; [|rewrite HT; cbn; rewrite Hc; cbn; reflexivity]);
+        loc_tac L Hlt HT; try (num HT; fail); try (constructor; runsh).
+    + erewrite istep_form; [|rewrite HT; cbn; rewrite Hc; cbn; reflexivity].
+      loc_tac L Hlt HT; try (num HT; fail); try (constructor; runsh).
+  - (* wait: QWait *)
+    erewrite istep_form; [|rewrite HT; cbn; reflexivity].
+    loc_tac L Hlt HT; try (num HT; fail). apply sh_wyread. runsh.
+  - (* wait: YRead before sleeping *)
+    erewrite istep_form; [|rewrite HT; cbn; rewrite P1; reflexivity].
+    loc_tac L Hlt HT; try (num HT; fail). apply sh_wynext. runsh.
+  - (* YNext WAITING *)
+    erewrite istep_form; [|rewrite HT; cbn; reflexivity].
+    loc_tac L Hlt HT; try (num HT; fail). apply sh_swread. runsh.
+  - (* SwRead *)
+    erewrite istep_form; [|rewrite HT; cbn; rewrite P1; cbn; reflexivity].
+    loc_tac L Hlt HT; try (num HT; fail). apply sh_swdone. runsh.
+  - (* SwDone *)
+    erewrite istep_form; [|rewrite HT; cbn; reflexivity].
+    loc_tac L Hlt HT; try (num HT; fail). apply sh_mread. runsh.
+  - (* MRead: push + sleep *)
+    erewrite istep_form;
+      [|rewrite HT; cbn; rewrite P1; cbn; unfold run_slots; rewrite SL3, P2; cbn; rewrite SL1, SL2;
+        unfold sleep; cbn; rewrite SL4; cbn; reflexivity].
+    replace (gstep (base x) t [Asleep; YLoop; FC (SWaited p k)] (g x)) with (g x)
+      by (unfold gstep; rewrite HT; reflexivity).
+    apply push_step; auto; try reflexivity.
+  - (* asleep and blocked: not ready *)
+    cbn in E. rewrite B in E. discriminate.
+  - (* asleep, made READY: resume *)
+    erewrite istep_form; [|rewrite HT; cbn; reflexivity].
+    loc_tac L Hlt HT; try (num HT; fail).
+    + intros [_ B']. congruence.
+    + apply sh_resume. auto.
+  - (* Resume *)
+    erewrite istep_form; [|rewrite HT; cbn; reflexivity].
+    loc_tac L Hlt HT; try (num HT; fail). apply sh_ryread. runsh.
+  - (* YRead after resuming *)
+    erewrite istep_form; [|rewrite HT; cbn; rewrite R1; reflexivity].
+    loc_tac L Hlt HT; try (num HT; fail). apply sh_rynext. runsh.
+  - (* YNext RUNNING: wait returns *)
+    destruct p as [|[| |] p];
+      (erewrite istep_form; [|rewrite HT; cbn; reflexivity]);
+      loc_tac L Hlt HT; try (num HT; fail); try (constructor; runsh).
+  - (* trywait: load *)
+    destruct (0 <? word (mem (base x)) 0) eqn:Hc.
+    + erewrite istep_form; [|rewrite HT; cbn; rewrite Hc; cbn; reflexivity].
+      loc_tac L Hlt HT; try (num HT; fail). apply sh_tcas; [runsh|boolp; lia].
+    + destruct p as [|[| |] p];
+        (erewrite istep_form; [|rewrite HT; cbn; rewrite Hc; cbn; reflexivity]);
+        loc_tac L Hlt HT; try (num HT; fail); try (constructor; runsh).
+  - (* trywait: CAS *)
+    destruct (word (mem (base x)) 0 =? v) eqn:Hc.
+    + destruct p as [|[| |] p];
+        (erewrite istep_form; [|rewrite HT; cbn; rewrite Hc; cbn; reflexivity]);
+        loc_tac L Hlt HT; try (num HT; fail); try (constructor; runsh).
+    + erewrite istep_form; [|rewrite HT; cbn; rewrite Hc; cbn; reflexivity].
+      loc_tac L Hlt HT; try (num HT; fail). constructor; runsh.
+  - (* post: load *)
+    destruct (word (mem (base x)) 0 <? 0) eqn:Hc.
+    + destruct (mq (mem (base x)) 0%nat) as [|f rest] eqn:HQ.
+      * erewrite istep_form; [|rewrite HT; cbn; rewrite Hc; unfold mq_pop; rewrite HQ; cbn; reflexivity].
+        loc_tac L Hlt HT; try (num HT; fail). constructor; runsh.
+      * erewrite istep_form; [|rewrite HT; cbn; rewrite Hc; unfold mq_pop; rewrite HQ; cbn; reflexivity].
+        replace (gstep (base x) t [QReady f; FC (SPostWoke p k)] (g x)) with (g x)
+          by (unfold gstep; rewrite HT; reflexivity).
+        eapply pop_step; eauto; try reflexivity.
+    + erewrite istep_form; [|rewrite HT; cbn; rewrite Hc; cbn; reflexivity].
+      loc_tac L Hlt HT; try (num HT; fail). apply sh_pcas; [runsh|boolp; lia].
+  - (* post: QReady *)
+    destruct (s_qr _ S t f _ HT) as [[_ Bf] _].
+    erewrite istep_form; [|rewrite HT; cbn; unfold wake; cbn; rewrite Bf; cbn; reflexivity].
+    replace (gstep (base x) t [WFAdd 0 1 5; FC (SPostAdded p k)] (g x)) with (bR (g x))
+      by (unfold gstep; rewrite HT; reflexivity).
+    apply ready_step; auto; try reflexivity.
+  - (* post: fetch_add *)
+    erewrite istep_form; [|rewrite HT; cbn; reflexivity].
+    loc_tac L Hlt HT; try (num HT; fail). constructor; runsh.
+  - (* post: CAS *)
+    destruct (word (mem (base x)) 0 =? v) eqn:Hc.
+    + destruct p as [|[| |] p];
+        (erewrite istep_form; [|rewrite HT; cbn; rewrite Hc; cbn; reflexivity]);
+        loc_tac L Hlt HT; try (num HT; fail); try (constructor; runsh).
+    + erewrite istep_form; [|rewrite HT; cbn; rewrite Hc; cbn; reflexivity].
+      loc_tac L Hlt HT; try (num HT; fail). constructor; runsh.
+  - (* post: yield, YRead *)
+    erewrite istep_form; [|rewrite HT; cbn; rewrite R1; reflexivity].
+    loc_tac L Hlt HT; try (num HT; fail). apply sh_pynext. runsh.
+  - (* post: yield returns *)
+    destruct p as [|[| |] p];
+      (erewrite istep_form; [|rewrite HT; cbn; reflexivity]);
+      loc_tac L Hlt HT; try (num HT; fail); try (constructor; runsh).
+Qed.
+
+Theorem ireach_linv v progs x : 0 <= v -> ireach v progs x -> LInv x.
+Proof.
+  intros Hv R. induction R as [|x t R IH E]; [apply init_linv; auto|apply linv_step; auto].
+Qed.
